@@ -185,7 +185,7 @@ PROPS = {
     "C11": dict(
         level="exploration",
         level_text="Every exported NNLS solver (block3 as used by fit, block, block_updown, Lawson-Hanson in normal-equation and least-squares mode) is run on generated symmetric positive-definite systems passed exactly as fit passes them (full storage, stype 0). Oracles: enumeration of all 2^n active sets in long double for n<=10; constructed optima (b := A x0 - g0 with complementary x0,g0>=0) with exactly-zero and tied components for any n up to 200 (sparse banded) and for dense systems of 40..300 unknowns with 1 or 2 worker threads and a quarter, half or seven eighths of the components positive - the regime in which modify_factor adds or deletes several rows of the Cholesky factor by row updates instead of refactorizing (a guarded hook counter reports whether that path was reached; an essential class); and the KKT conditions on the returned vector with tolerances tied to each solver's stated tolerance. Each solve runs in a forked child so exit(1), aborts and hangs are failing cases. A libFuzzer twin decodes the same small systems from bytes and checks the KKT conditions in the target; with -use_value_profile=1 the solvers' iteration counters become coverage features, which steers it towards inputs on which a solver runs long (it found a non-degenerate instance of the block_updown limit exhaustion and a weakness of the tolerance model within minutes); its seed corpus is a coverage-minimised set from such campaigns.",
-        level_note="Tolerances: block3 n*eps*1e5, block/block_updown 1e-6 (their KKT_TOL, absolute), Lawson-Hanson 0 as passed; plus 64*n*eps*(|A||x|+|b|). OMP_NUM_THREADS=2 for block3's line search (C12 owns the schedule dimension).",
+        level_note="Tolerances: block3 n*eps*1e5, block/block_updown 1e-6 (their KKT_TOL, absolute), Lawson-Hanson 0 as passed; plus a rounding floor 64*n*eps*max_k(|A||x|+|b|)_k*(1+cond*1e-3) (a solve on an ill-conditioned free set is only forward-accurate to cond*eps). The known non-convergence class (iteration limit exhausted, guarded hook) is excluded and counted for block3 and block_updown on any system and for the plain block solver on degenerate systems only. OMP_NUM_THREADS=2 for block3's line search (C12 owns the schedule dimension).",
         technique="property-based testing (rapidcheck, fork-isolated) with an exhaustive-enumeration reference and constructed-optimum oracle; coverage-guided fuzzing (libFuzzer with value profile) of the small systems with the KKT conditions as in-target oracle",
         units=[U("c11_nnls", "c11_nnls.cpp", quick=6000, thorough=90000, names=["kkt_small", "kkt_large_sparse", "kkt_medium_dense"]),
                U("c11_nnls_fuzz", "c11_nnls.cpp", variant="fuzz", kind="fuzz", flags=["-DVF_FUZZ"], quick=200000, thorough=4000000, names=["kkt_small_fuzz"], max_len=1024, fuzz_flags=["-use_value_profile=1"])],
